@@ -108,9 +108,11 @@ func c09MainProg(c c09Case) *Prog {
 	}
 	// own functions with the same names as the libraries'
 	p.Stmts = append(p.Stmts,
-		FuncDef{Name: "Get", Rets: []Type{TInt}, Body: []Stmt{Return{Vals: []Expr{lit(-1)}}}},
 		FuncDef{Name: "helper", Rets: []Type{TInt}, Body: []Stmt{Return{Vals: []Expr{lit(-10)}}}},
-		Print{Args: []Expr{StrLit{V: "main"}, Call{Fn: "Get"}, Call{Fn: "helper"}}},
+		// Get calls helper; Gethelper (the two names joined) is called from the top level only
+		FuncDef{Name: "Get", Rets: []Type{TInt}, Body: []Stmt{Return{Vals: []Expr{Binary{Op: "+", L: Call{Fn: "helper"}, R: lit(9)}}}}},
+		FuncDef{Name: "Gethelper", Rets: []Type{TInt}, Body: []Stmt{Return{Vals: []Expr{lit(-77)}}}},
+		Print{Args: []Expr{StrLit{V: "main"}, Call{Fn: "Get"}, Call{Fn: "helper"}, Call{Fn: "Gethelper"}}},
 	)
 	for _, mi := range c.mainImp {
 		l := libByPath[mi[1]]
@@ -137,6 +139,16 @@ func c09MainProg(c c09Case) *Prog {
 	}
 	p.Stmts = append(p.Stmts, Print{Args: []Expr{StrLit{V: "end"}, Call{Fn: "Get"}}})
 	return p
+}
+
+// c09LibSource is the text of a library file of a case (nonce comment, twin comment).
+func c09LibSource(c c09Case, l c09Lib, p *Prog) string {
+	src := withNonce(PrintProg(*p), c.nonce[l.id])
+	if l.twinOf != 0 {
+		// (a comment at the end of the first line: same statements, same line structure, other bytes)
+		src = strings.Replace(src, "\n", fmt.Sprintf(" // the same statements as l%d.tsh, another file\n", l.twinOf), 1)
+	}
+	return src
 }
 
 // withNonce appends a comment so that the content hash starts with the wanted hex digit.
@@ -272,16 +284,29 @@ func c09Cases(thorough bool) []c09Case {
 var bashFuncDef = regexp.MustCompile(`(?m)^([A-Za-z_][A-Za-z0-9_]*)\(\) \{$`)
 
 // c09Static: every function defined once; every defined function that is invoked is defined before its first call.
+var c09Prefixed = regexp.MustCompile(`^_[0-9a-f]{7}_(.)`)
+
 func c09Static(script string) string {
 	defs := map[string]int{}
 	lines := strings.Split(script, "\n")
+	firstDup := ""
 	for i, l := range lines {
 		if m := bashFuncDef.FindStringSubmatch(l); m != nil {
 			if _, dup := defs[m[1]]; dup {
-				return "function " + m[1] + " defined twice"
+				// a PUBLIC function (prefix + upper-case name) is de-duplicated by the import machinery even for a
+				// file that is reached twice; only private ones fall under the listed finding
+				if pm := c09Prefixed.FindStringSubmatch(m[1]); pm != nil && pm[1] >= "A" && pm[1] <= "Z" {
+					return "public function " + m[1] + " defined twice"
+				}
+				if firstDup == "" {
+					firstDup = m[1]
+				}
 			}
 			defs[m[1]] = i
 		}
+	}
+	if firstDup != "" {
+		return "function " + firstDup + " defined twice"
 	}
 	depth := 0
 	for i, l := range lines {
@@ -329,11 +354,7 @@ func C09() int {
 			name := fmt.Sprintf("l%d.tsh", l.id)
 			p := c09LibProg(l)
 			progs[name] = p
-			files[name] = withNonce(PrintProg(*p), c.nonce[l.id])
-			if l.twinOf != 0 {
-				// (a comment at the end of the first line: same statements, same line structure, other bytes)
-				files[name] = strings.Replace(files[name], "\n", fmt.Sprintf(" // the same statements as l%d.tsh, another file\n", l.twinOf), 1)
-			}
+			files[name] = c09LibSource(c, l, p)
 			h := sha256.Sum256([]byte(files[name]))
 			cls := "letter"
 			if d := fmt.Sprintf("%x", h[:1])[0]; d >= '0' && d <= '9' {
@@ -500,7 +521,7 @@ func C09() int {
 			panic("HARNESS ERROR: c09 replay differs for " + c.name)
 		}
 		key := "case=" + c.name + " symptom=" + sym
-		r.Fail(c09KnownKey(c, sym, want.Stdout, wantIfRerun, got, key), fmt.Sprintf("import graph %s: %s (%s)", c.name, sym, detail), func() findings.Replay {
+		r.Fail(c09KnownKeyD(c, sym, detail, want.Stdout, wantIfRerun, got, key), fmt.Sprintf("import graph %s: %s (%s)", c.name, sym, detail), func() findings.Replay {
 			fs := map[string]string{"expected.txt": want.Stdout + fmt.Sprintf("exit=%d\n", want.Exit), "actual.txt": got.Stdout + fmt.Sprintf("exit=%d\n", got.Exit), "stderr.txt": got.Stderr, "script.sh": tr.Script}
 			for k, v := range files {
 				fs["src/"+k] = v
@@ -548,12 +569,16 @@ func c09ReachedTwice(c c09Case) bool {
 }
 
 func c09KnownKey(c c09Case, sym, want, wantIfRerun string, got drive.RunResult, exact string) string {
+	return c09KnownKeyD(c, sym, "", want, wantIfRerun, got, exact)
+}
+
+func c09KnownKeyD(c c09Case, sym, detail, want, wantIfRerun string, got drive.RunResult, exact string) string {
 	twice := c09ReachedTwice(c)
 	diamond := twice
 	if (twice || diamond) && sym == "stdout-diff" && (c09OnlyDuplicatedTopLevel(want, got.Stdout) || got.Stdout == wantIfRerun) {
 		return "region=file-reached-twice-runs-its-top-level-code-twice symptom=stdout-diff"
 	}
-	if (twice || diamond) && sym == "static" {
+	if (twice || diamond) && sym == "static" && !strings.HasPrefix(detail, "public function") {
 		return "region=file-reached-twice-private-function-emitted-twice symptom=static"
 	}
 	return exact
